@@ -62,6 +62,7 @@ func C10(c *core.Ctx) {
 	p := c.P
 	defer c10FrameBuffer(c)
 	defer c10ReassemblyKey(c)
+	defer c10OverheadFresh(c)
 	defer c10RemovalOnlyWhenDone(c)
 	defer c10HeadersOnEveryFragment(c)
 	// fields of the link service by role, not by name: the reassembly store is the map
@@ -1654,4 +1655,45 @@ func c10RemovalOnlyWhenDone(c *core.Ctx) {
 		c.Decide(okGate, "R10.20", fmt.Sprintf("partial-message-removed-only-when-done#%d", n), c.Pos(cl), "the removal lies behind a test of the size of the store or of the message's slot table", "reassemblePacket removes a partial message at "+c.Pos(cl)+" on a condition that is neither its completion nor the store being full: the decision then depends on which fragment has just arrived, i.e. on the order of arrival — a message whose fragments arrive out of order is thrown away and never delivered")
 	})
 	c.Floor("R10.20", "removals from the partial-message store in reassemblePacket", n, 2)
+}
+
+// c10OverheadFresh — R10.21 (conditional; two cooperating edits) "every frame fits within
+// the MTU": the link service caches the header overhead. While that number depends on the
+// options alone, it is enough to recompute it when the options change. Premise: the
+// computation also reads the transport (its MTU). Obligation: SetOptions then recomputes it
+// on every path — management writes the options back after every faces/update, which is
+// what refreshes the cache after a SetMTU; a SetOptions that returns early "because nothing
+// changed" leaves an overhead computed for the old MTU in place.
+func c10OverheadFresh(c *core.Ctx) {
+	comp := c.Fn("R10.21", "fw/face", "NDNLPLinkService", "computeHeaderOverhead")
+	set := c.Fn("R10.21", "fw/face", "NDNLPLinkService", "SetOptions")
+	if comp == nil || set == nil {
+		return
+	}
+	readsMTU := ""
+	core.InstrsDeep(comp, func(in ssa.Instruction) {
+		ci, ok := in.(ssa.CallInstruction)
+		if !ok {
+			return
+		}
+		name := ""
+		if ci.Common().IsInvoke() {
+			name = ci.Common().Method.Name()
+		} else if cal := ci.Common().StaticCallee(); cal != nil {
+			name = cal.Name()
+		}
+		if name == "MTU" {
+			readsMTU = c.Pos(in)
+		}
+	})
+	if readsMTU == "" {
+		c.Ok("R10.21", "cached-overhead-follows-the-mtu", c.P.Pos(comp.Pos()), "premise absent: the cached overhead is computed from the options alone")
+		return
+	}
+	isComp := func(in ssa.Instruction) bool {
+		ci, ok := in.(ssa.CallInstruction)
+		return ok && ci.Common().StaticCallee() == comp
+	}
+	fr := core.MustFollow(set, core.Point{Block: set.Blocks[0], Idx: 0}, isComp, nil)
+	c.Decide(fr.OK, "R10.21", "cached-overhead-follows-the-mtu", c.P.Pos(set.Pos()), "the overhead depends on the MTU and SetOptions recomputes it on every path", "the cached header overhead depends on the transport's MTU (read at "+readsMTU+") but SetOptions does not recompute it on every path (it returns early): after faces/update has changed the MTU and written unchanged options back, fragments are cut for an overhead computed for the old MTU — frames exceed the new MTU")
 }
